@@ -6,7 +6,9 @@ import re
 from typing import Optional
 
 from ..core import AnalysisError, FunctionInfo, Project, dotted, is_const, kwarg, norm, param_names, walk_no_nested
+from ..core import arg_for
 from ..util import canon, returns_of
+from .. import sym
 from . import c04
 
 EXPLANATION = (
@@ -104,41 +106,135 @@ def r2(ctx):
         ctx.check(not bad, "C13.R2", f"{f.name}: the recorded statistics are applied unchanged to new data", f.where, ctx.construct(f, text="replay writes"),
                   f"state is rewritten on replay: {[k for _, k in bad]}")
     sc = P.func("formulaic.transforms.scale.scale")
-    t = norm(sc.node)
+    pd, pc, ps, pf, pst = (param_names(sc.node) + [None] * 5)[:5]
+    try:
+        outs = sym.outcomes(sc.node)
+    except sym.Unmodelled as e:
+        raise AnalysisError(f"C13.R2: scale cannot be summarised: {e}")
+    A = {"ddof": f"'ddof' in {pst}", "cin": f"'center' in {pst}", "cb": f"isinstance({pc}, bool)", "c": pc, "cnone": f"{pst}['center'] is None",
+         "sin": f"'scale' in {pst}", "sb": f"isinstance({ps}, bool)", "s": ps, "snone": f"{pst}['scale'] is None"}
+
+    def under(**kw):
+        return sym.eval_under(outs, {A[k]: v for k, v in kw.items()}, kinds=("return",))
+
+    def effect(res, pat, binds=None):
+        for _, _, effs in res:
+            for e in effs:
+                b = sym.pm(pat, e, binds)
+                if b is not None:
+                    return b
+        return None
+
+    D = f"numpy.array({pd})"
+    fit = under(ddof=False, cin=False, cb=True, c=True, cnone=False, sin=False, sb=True, s=True, snone=False)
+    replay = under(ddof=True, cin=True, cnone=False, sin=True, snone=False)
     checks = [
-        ("the centre is the mean over rows of the training data", "_state['center'] = numpy.mean(data, axis=0)"),
-        ("the recorded centre is subtracted", "data = data - _state['center']"),
-        ("the scale is the root of the sum of squares over n − ddof", "_state['scale'] = numpy.sqrt(numpy.sum(data ** 2, axis=0) / (data.shape[0] - ddof))"),
-        ("the recorded scale divides", "data = data / _state['scale']"),
-        ("the recorded ddof is reused", "ddof = _state['ddof']"),
+        ("the centre is the mean over rows of the training data",
+         len(fit) == 1 and effect(fit, f"{pst}['center'] = numpy.mean(ANY_d, axis=0)", {"ANY_d": D}) is not None,
+         f"when fitting, {pst}['center'] must be numpy.mean({D}, axis=0)"),
+        ("the recorded centre is subtracted",
+         len(replay) == 1 and sym.pm_any([f"({D} - {pst}['center']) / {pst}['scale']"], replay[0][1]) is not None
+         and len(under(ddof=True, cin=True, cnone=True, sin=True, snone=False)) == 1
+         and sym.pm(f"{D} / {pst}['scale']", under(ddof=True, cin=True, cnone=True, sin=True, snone=False)[0][1]) is not None,
+         f"on replay the result must be ({D} - {pst}['center']) / {pst}['scale'] (no centring when the recorded centre is None)"),
+        ("the scale is the root of the sum of squares over n − ddof",
+         len(fit) == 1 and effect(fit, f"{pst}['scale'] = numpy.sqrt(numpy.sum(ANY_c ** 2, axis=0) / (ANY_c.shape[0] - {pf}))") is not None,
+         f"when fitting, {pst}['scale'] must be numpy.sqrt(numpy.sum(centred ** 2, axis=0) / (centred.shape[0] - {pf}))"),
+        ("the recorded scale divides",
+         len(replay) == 1 and isinstance(replay[0][1], ast.BinOp) and isinstance(replay[0][1].op, ast.Div) and norm(replay[0][1].right) == f"{pst}['scale']"
+         and len(under(ddof=True, cin=True, cnone=False, sin=True, snone=True)) == 1
+         and sym.pm(f"{D} - {pst}['center']", under(ddof=True, cin=True, cnone=False, sin=True, snone=True)[0][1]) is not None,
+         "on replay the centred data must be divided by the recorded scale (and left alone when it is None)"),
+        ("the recorded ddof is reused",
+         effect(under(ddof=True, cin=True, cnone=False, sin=False, sb=True, s=True, snone=False),
+                f"{pst}['scale'] = numpy.sqrt(numpy.sum(ANY_c ** 2, axis=0) / (ANY_c.shape[0] - {pst}['ddof']))") is not None,
+         f"when {pst} already records ddof, the scale must be estimated with {pst}['ddof'], not with the argument"),
     ]
-    for what, frag in checks:
+    for what, ok, msg in checks:
         ctx.look()
-        ctx.check(frag in t, "C13.R2", f"scale: {what}", sc.where, ctx.construct(sc, text=what), f"expected `{frag}`")
-    ok = t.index("data = data - _state['center']") < t.index("_state['scale'] = numpy.sqrt") if all(x in t for x in ("data = data - _state['center']", "_state['scale'] = numpy.sqrt")) else False
-    ctx.check(ok, "C13.R2", "scale: the data is centred before the scale is estimated", sc.where, ctx.construct(sc, text="centre before scale"),
-              "the standard deviation must be computed from the centred data")
+        ctx.check(bool(ok), "C13.R2", f"scale: {what}", sc.where, ctx.construct(sc, text=what), msg)
+    b = effect(fit, f"{pst}['scale'] = numpy.sqrt(numpy.sum(ANY_c ** 2, axis=0) / (ANY_c.shape[0] - {pf}))")
+    ctx.check(b is not None and b["ANY_c"] == f"{D} - {pst}['center']", "C13.R2", "scale: the data is centred before the scale is estimated", sc.where,
+              ctx.construct(sc, text="centre before scale"),
+              f"the standard deviation must be computed from the centred data; it is computed from `{(b or {}).get('ANY_c')}`")
     ce = P.func("formulaic.transforms.scale.center")
-    r = returns_of(ce.node)
-    ctx.check(bool(r) and norm(r[0].value) == "scale(data, scale=False, _state=_state)", "C13.R2", "center = scale(..., scale=False) with the same state", ce.where,
-              ctx.construct(ce, text="delegate"), f"center returns `{norm(r[0].value) if r else None}`")
+    c = _single_return(ce)
+    cp = param_names(ce.node)
+    ok = isinstance(c, ast.Call) and P.resolve_in(ce, c.func) == sc.qualname and \
+        [norm(x) if x is not None else None for x in (arg_for(c, sc.node, pd), arg_for(c, sc.node, ps), arg_for(c, sc.node, pst))] == [cp[0], "False", cp[-1]] \
+        and arg_for(c, sc.node, pc) is None and arg_for(c, sc.node, pf) is None
+    ctx.check(ok, "C13.R2", "center = scale(..., scale=False) with the same state", ce.where,
+              ctx.construct(ce, text="delegate"), f"center returns `{norm(c) if c is not None else None}`")
     sd = P.func("formulaic.transforms.patsy_compat.standardize")
-    r = returns_of(sd.node)
-    ctx.check(bool(r) and norm(r[0].value) == "scale(x, center=center, scale=rescale, ddof=ddof, _state=_state)", "C13.R2",
-              "standardize forwards its flags and state to scale", sd.where, ctx.construct(sd, text="delegate"), f"standardize returns `{norm(r[0].value) if r else None}`")
+    c = _single_return(sd)
+    sp = param_names(sd.node)
+    ok = isinstance(c, ast.Call) and P.resolve_in(sd, c.func) == sc.qualname and \
+        [norm(x) if x is not None else None for x in (arg_for(c, sc.node, n) for n in (pd, pc, ps, pf, pst))] == [sp[0], "center", "rescale", "ddof", "_state"]
+    ctx.check(ok, "C13.R2", "standardize forwards its flags and state to scale", sd.where, ctx.construct(sd, text="delegate"), f"standardize returns `{norm(c) if c is not None else None}`")
     po = P.func("formulaic.transforms.poly.poly")
-    t = norm(po.node)
-    for what, frag in (("rows with nulls yield nulls", "out.fill(numpy.nan)"), ("only non-null rows are fitted/evaluated", "nonnull_indices = numpy.flatnonzero(~numpy.isnan(x))"),
-                       ("results are written back row-wise", "out[nonnull_indices, :] = P[:, 1:]"), ("the constant column is dropped", "P[:, 0] = 1"),
-                       ("recorded recurrence coefficients are reused", "alpha = _state.get('alpha')"),
-                       ("three-term recurrence, first order", "P[:, i] = (x - get_alpha(i - 1)) * P[:, i - 1]"),
-                       ("three-term recurrence, second order", "P[:, i] -= get_beta(i - 1) * P[:, i - 2]"),
-                       ("alpha_k = <x p_k, p_k> / <p_k, p_k>", "alpha[k] = numpy.sum(x * P[:, k] ** 2) / numpy.sum(P[:, k] ** 2)"),
-                       ("norm_k = <p_k, p_k>", "norms2[k] = numpy.sum(P[:, k] ** 2)"),
-                       ("beta_k = norm_k / norm_{k-1}", "return get_norm(k) / get_norm(k - 1)"),
-                       ("every column is divided by the root of its own squared norm", "P /= numpy.array([numpy.sqrt(get_norm(k)) for k in range(0, degree + 1)])")):
+    fnp = po.node
+
+    def has(*pats, binds=None):
+        for pat in pats:
+            for n in ast.walk(fnp):
+                b = sym.pm(pat, n, binds)
+                if b is not None:
+                    return b
+        return None
+
+    ba = has("VAR_a[VAR_k] = numpy.sum(VAR_x * VAR_P[:, VAR_k] ** 2) / numpy.sum(VAR_P[:, VAR_k] ** 2)")
+    bn = has("VAR_n[VAR_k] = numpy.sum(VAR_P[:, VAR_k] ** 2)")
+    getters = {}
+    for n in ast.walk(fnp):
+        if isinstance(n, ast.FunctionDef) and n is not fnp and len(n.args.args) == 1:
+            k = n.args.args[0].arg
+            for r in returns_of(n):
+                if ba and sym.pm(f"{ba['VAR_a']}[{k}]", r.value) is not None:
+                    getters["alpha"] = n.name
+                if bn and sym.pm(f"{bn['VAR_n']}[{k}]", r.value) is not None:
+                    getters["norm"] = n.name
+    G = getters.get("norm", "get_norm")
+    for n in ast.walk(fnp):
+        if isinstance(n, ast.FunctionDef) and n is not fnp and len(n.args.args) == 1:
+            k = n.args.args[0].arg
+            if any(sym.pm(f"{G}({k}) / {G}({k} - 1)", r.value) is not None for r in returns_of(n)):
+                getters["beta"] = n.name
+    GA, GB = getters.get("alpha", "get_alpha"), getters.get("beta", "get_beta")
+    Pm = (ba or {}).get("VAR_P", "P")
+    deg = param_names(fnp)[1]
+    poly_checks = [
+        ("rows with nulls yield nulls", has("VAR_o.fill(numpy.nan)", "VAR_o = numpy.full(ANY_s, numpy.nan)", "VAR_o = numpy.full(ANY_s, fill_value=numpy.nan)"),
+         "the output matrix must start filled with NaN"),
+        ("only non-null rows are fitted/evaluated", has("VAR_i = numpy.flatnonzero(~numpy.isnan(VAR_x))", "VAR_i = numpy.flatnonzero(numpy.logical_not(numpy.isnan(VAR_x)))",
+                                                          "VAR_i = numpy.where(~numpy.isnan(VAR_x))[0]"),
+         "the non-null row indices must be numpy.flatnonzero(~numpy.isnan(x))"),
+        ("results are written back row-wise", has(f"VAR_o[VAR_i, :] = {Pm}[:, 1:]"), f"expected out[nonnull_indices, :] = {Pm}[:, 1:]"),
+        ("the constant column is dropped", has(f"{Pm}[:, 0] = 1", f"{Pm}[:, 0] = 1.0"), f"expected {Pm}[:, 0] = 1 (and only columns 1: are returned)"),
+        ("recorded recurrence coefficients are reused", has("VAR_a = _state.get('alpha')", "VAR_a = _state['alpha'] if 'alpha' in _state else None"),
+         "alpha must be read from _state"),
+        ("three-term recurrence, first order", has(f"{Pm}[:, VAR_i] = (VAR_x - {GA}(VAR_i - 1)) * {Pm}[:, VAR_i - 1]"),
+         f"expected `{Pm}[:, i] = (x - {GA}(i - 1)) * {Pm}[:, i - 1]`"),
+        ("three-term recurrence, second order", has(f"{Pm}[:, VAR_i] -= {GB}(VAR_i - 1) * {Pm}[:, VAR_i - 2]", f"{Pm}[:, VAR_i] = {Pm}[:, VAR_i] - {GB}(VAR_i - 1) * {Pm}[:, VAR_i - 2]"),
+         f"expected `{Pm}[:, i] -= {GB}(i - 1) * {Pm}[:, i - 2]`"),
+        ("alpha_k = <x p_k, p_k> / <p_k, p_k>", ba if ba and "alpha" in getters else None, "expected `alpha[k] = numpy.sum(x * P[:, k] ** 2) / numpy.sum(P[:, k] ** 2)` in the getter that returns alpha[k]"),
+        ("norm_k = <p_k, p_k>", bn if bn and "norm" in getters else None, "expected `norms2[k] = numpy.sum(P[:, k] ** 2)` in the getter that returns norms2[k]"),
+        ("beta_k = norm_k / norm_{k-1}", getters.get("beta"), f"expected a getter returning `{G}(k) / {G}(k - 1)`"),
+        ("every column is divided by the root of its own squared norm",
+         has(f"{Pm} /= numpy.array([numpy.sqrt({G}(VAR_k)) for VAR_k in range(0, {deg} + 1)])", f"{Pm} /= numpy.array([numpy.sqrt({G}(VAR_k)) for VAR_k in range({deg} + 1)])",
+             f"{Pm} = {Pm} / numpy.array([numpy.sqrt({G}(VAR_k)) for VAR_k in range(0, {deg} + 1)])", f"{Pm} /= numpy.sqrt(numpy.array([{G}(VAR_k) for VAR_k in range(0, {deg} + 1)]))"),
+         f"expected `{Pm} /= numpy.array([numpy.sqrt({G}(k)) for k in range(0, {deg} + 1)])`"),
+    ]
+    for what, ok, msg in poly_checks:
         ctx.look()
-        ctx.check(frag in t, "C13.R2", f"poly: {what}", po.where, ctx.construct(po, text=what), f"expected `{frag}`")
+        ctx.check(ok is not None and ok is not False, "C13.R2", f"poly: {what}", po.where, ctx.construct(po, text=what), msg)
+
+
+def _single_return(f):
+    try:
+        outs = [o for o in sym.outcomes(f.node) if o.kind == "return"]
+    except sym.Unmodelled:
+        return None
+    return outs[0].value if len(outs) == 1 else None
 
 
 
